@@ -141,6 +141,10 @@ class Tree:
                         single = [np.asarray(ref[int(e)]) for e in idx]
                         pats = {"negative int": (obj[-1], single[-1]),
                                 "slice": (obj[0:n:2], single[0:n:2]),
+                                "slice from the end": (obj[-2:], single[-2:]),
+                                "slice up to the end": (obj[:-1],
+                                                        single[:-1]),
+                                "empty slice": (obj[0:0], single[0:0]),
                                 "bool mask": (obj[sel2], single[0:n:2])}
                         for pn, (got, want) in pats.items():
                             if pn == "negative int":
